@@ -85,9 +85,20 @@ def run(c, facts, tier):
     for k, fn in facts.fns.items():
         if fn.name == "compile" and fn.impl is None and not fn.test and fn.node["vis"] == "pub":
             comp = fn
-    defaults = find_all(comp.body, lambda x: x.get("k") == "call" and x["f"]["k"] == "path" and x["f"]["segs"][-1] == "default" and x["f"]["segs"][0] in codegen.MANAGERS)
+    from .. import toplevel
+
+    T = toplevel.summary(facts)
+    made = set()
+    fresh = bool(T["paths"])
+    for p_ in T["paths"]:
+        for c_ in p_["calls"]:
+            if c_["method"] == "compile" and len(c_["args"]) >= 2:
+                k_ = toplevel.ctor_of(c_["args"][1])
+                made.add(k_)
+                if not (k_ and k_.endswith("::default") and k_.split("::")[0] in codegen.MANAGERS):
+                    fresh = False
     params_mgr = [p for p in comp.params if "Manager" in p[1]]
-    c.ob("C15.no-state", comp.key, "a fresh manager per compile call", len(defaults) == 2 and not params_mgr, "managers created inside compile(): %s; passed in from outside: %s" % ([src(d) for d in defaults], params_mgr))
+    c.ob("C15.no-state", comp.key, "a fresh manager per compile call", fresh and len(made) == 2 and not params_mgr, "managers handed to the expression's compile() on the paths of %s: %s (each constructed by Default inside the call); passed in from outside: %s" % (comp.key, sorted(x or "?" for x in made), params_mgr))
     # ---------------------------------------------------------------- logging must not carry behaviour
     PURE = {"len", "is_empty", "to_string", "clone", "as_ref", "as_str", "iter", "count", "as_slice", "display", "to_owned"}
     nlog = 0
